@@ -56,7 +56,8 @@ impl Decoder for ServerCodec {
         }
         match self.state {
             CodecState::Header => {
-                if src.remaining() < 60 || src.remaining() < 59 + address::try_decode_at(src, 59)? {
+                // key, CRLF, command, address type and the byte after it (the length of a domain name)
+                if src.remaining() < 61 || src.remaining() < 59 + address::try_decode_at(src, 59)? + trojan::CR_LF.len() {
                     return Ok(None);
                 }
                 if src[56] != b'\r' {
